@@ -65,7 +65,7 @@ CANDS = [(Fraction(0), 0, "0"), (Fraction(1), 0, "1"), (Fraction(-1), 0, "(-1)")
          (Fraction(10 ** 34), 34, "10**34"), (Fraction(10 ** 35), 35, "10**35"), (Fraction(10 ** 40), 40, "10**40"),
          (Fraction(9 * 10 ** 6144), 6111, "(10**6144*9)"), (Fraction(-9 * 10 ** 6144), 6111, "(10**6144*-9)"),
          (Fraction(8 * 10 ** 6144), 6111, "(10**6144*8)"),
-         (Fraction(1, 10 ** 6000), -6000, "10**-6000")]
+         (Fraction(1, 10 ** 6000), -6000, "10**-6000"), (Fraction(10 ** 34 - 1), 0, "(10**34-1)")]
 CANDS_SMALL = [CANDS[0], CANDS[1], CANDS[15], CANDS[16], CANDS[17], CANDS[18], CANDS[8]]
 
 
@@ -194,6 +194,8 @@ def run(check, mirror, tier):
         def setup(ex, st):
             dv.assume_axioms(ex, st)
             vals = {n: U.fresh(ex, st, 0, n, kinds=["Number", "Null", "Boolean"]) for n in names}
+            # integrality / parity questions: a quotient of 34 integer digits is admitted in its rounded (integral) form too
+            ex.dec_round_quotient = fn in ("even", "odd", "floor", "ceiling", "abs")
             return core_name(crate, fn), [Ref(ex.new_cell(st, vals[n])) for n in names], vals
 
         def post(ex, o, v):
@@ -269,6 +271,7 @@ def run(check, mirror, tier):
     def repr_is_integer():
         def setup(ex, st):
             dv.assume_axioms(ex, st)
+            ex.dec_round_quotient = True
             n = dv.fresh_number(ex, st, "n")
             return "FeelNumber::is_integer", [Ref(ex.new_cell(st, n))], {"n": n}
 
